@@ -84,6 +84,8 @@ def _mk_measure(R, base, lo, hi, kmax):
         u, par = gen_1d(w, R, base)
         a, fa = gen_limit(w, "a", lo, R, -1.0)
         b, fb = gen_limit(w, "b", hi, R, 1.0)
+        from .common import snapshot, unchanged
+        su = snapshot(u)
         tm = T.TruncatedGaussianMeasure(measure=u, lower_limit=a, upper_limit=b)      # REAL
         x = w.arr("x", "N", 1)
         ind = 1.0 + 0.0 * ln_u(w, par, x)
@@ -109,6 +111,10 @@ def _mk_measure(R, base, lo, hi, kmax):
         w.equal("integrate[x**2]", tm.integrate("x**2"), (mass * moment_spec(w, par, J, 2))[:, None])
         for k in range(0, kmax + 1):
             w.equal(f"integrate[x**k]/k={k}", tm.integrate("x**k", k=k), (mass * moment_spec(w, par, J, k))[:, None])
+        if base == "measure":
+            # lazily filled caches of the base measure are legitimate; its defining parameters must be untouched
+            for fld in ("Lambda", "nu", "ln_beta"):
+                w.check(f"frame/base-measure-{fld}-unchanged", getattr(u, fld) is su[fld], f"{fld} of the base measure was rebound")
     return ob
 
 
@@ -143,10 +149,15 @@ def _mk_pdf(R, base, lo, hi, how):
         u, par = gen_1d(w, R, base)
         a, fa = gen_limit(w, "a", lo, R, -1.0)
         b, fb = gen_limit(w, "b", hi, R, 1.0)
+        from .common import snapshot, unchanged
+        su = snapshot(u)
         if how == "get_density":
             tp = T.TruncatedGaussianMeasure(measure=u, lower_limit=a, upper_limit=b).get_density()   # REAL
         else:
             tp = T.TruncatedGaussianPDF(measure=u, lower_limit=a, upper_limit=b)                     # REAL, built directly
+        # (lazily filled caches of the base measure are legitimate; its defining parameters must be untouched)
+        for fld in ("Lambda", "nu", "ln_beta"):
+            w.check(f"frame/base-measure-{fld}-unchanged", getattr(u, fld) is su[fld], f"{fld} of the base measure was rebound")
         J = J_list(w, par, a, fa, b, fb, 2)
         mass = xp.exp(par["lnmass"])
         x = w.arr("x", "N", 1)
